@@ -209,3 +209,41 @@ def rule_no_recursion(ctx, chk, rule, roots, what):
     else:
         chk.ok(rule, roots[0].where(), "call graph reachable from %s: %d functions, acyclic" % (what, len(scope)))
     return len(scope)
+
+
+def init_states_table(ctx):
+    """Scenario table of StochasticGame.init_states: for each player kind (and an unknown one) and for an empty /
+    non-empty transition list, what one iteration of the construction loop appends.
+    Returns dict(loop=L, var=v, rows={(player, nonempty): term}, sx=sx, f=f) or raises AnalysisError."""
+    from ..symx import SymX, subst, simp, assume_deep, C, TRUE, FALSE
+    if "init_states_table" in ctx.cache:
+        return ctx.cache["init_states_table"]
+    f = ctx.func("tad.py::StochasticGame.init_states")
+    sx = SymX(ctx, f, "StochasticGame", inline_depth=2).run()
+    loops = [l for l in sx.loops.values() if l.kind == "for" and l.source[0] == "call" and l.source[1] == "zip"]
+    if len(loops) != 1:
+        raise AnalysisError("init_states: %d loops over zip(...)" % len(loops))
+    L = loops[0]
+    cands = [v for v in L.update if L.init.get(v) == ("list", ())]
+    if len(cands) != 1:
+        raise AnalysisError("init_states: node list variable not identified")
+    v = cands[0]
+    u = L.update[v]
+    elem = ("elem", L.id)
+    player_t, trans_t = simp(("idx", elem, C(0))), simp(("idx", elem, C(1)))
+    rows = {}
+    for P in list(ctx.cg.player_class) + ["<unknown player>"]:
+        for nonempty in (True, False):
+            t = subst(u, lambda x: C(P) if x == player_t else None)
+            t = assume_deep(t, ("truthy", trans_t), nonempty)
+            t = assume_deep(t, simp(("cmp", "==", C(0), ("call", "len", (trans_t,), ()))), not nonempty)
+            # class-valued applications: apply(('v', Class), args) == call Class(args); apply(None) impossible branches vanish
+            t = subst(t, lambda x: ("call", x[1][1], x[2], x[3]) if x[0] == "apply" and x[1][0] == "v" and x[1][1] in ctx.prog.classes else None)
+            for _ in range(3):
+                t = subst(t, lambda x: (x[2] if x[1][1] else x[3]) if x[0] == "ite" and x[1][0] == "c" and isinstance(x[1][1], bool) else None)
+                t = subst(t, lambda x: C(x[2] == x[3] if x[1] in ("==", "is") else x[2] != x[3]) if x[0] == "cmp" and x[1] in ("==", "!=", "is", "isnot")
+                          and all(y[0] == "v" and y[1] in ctx.prog.classes or y == C(None) for y in (x[2], x[3])) and (x[2][0] == "v" or x[3][0] == "v") else None)
+            rows[(P, nonempty)] = t
+    out = dict(loop=L, var=v, rows=rows, sx=sx, f=f, elem=elem)
+    ctx.cache["init_states_table"] = out
+    return out
